@@ -141,6 +141,47 @@ def compare_outcomes(recipe, np_vals, variant, base, got):
     return out
 
 
+def fusion_tree_recipe(rng):
+    """One requested array: a tree of elementwise operations over 2-6 equally shaped leaves of mixed item sizes
+    (what the optimiser fuses into a single operation reading all the leaves), now and then reduced at the end."""
+    g = gen.Gen(rng.getrandbits(40), allow_zero=False)
+    nd = rng.choice([1, 2, 2])
+    shape = [rng.randint(4, 9) for _ in range(nd)]
+    chunks = [rng.randint(2, d) for d in shape]
+    nodes = []
+
+    def leaf():
+        n = g.new_leaf(shape=shape, dtype=rng.choice(["float64", "float64", "int64", "float32", "int8", "int32"]))
+        n["p"]["chunks"] = list(chunks)
+        n["p"]["neg"] = False
+        nodes.append(n)
+        return len(nodes) - 1
+
+    def tree(depth):
+        if depth == 0 or rng.random() < 0.25:
+            i = leaf()
+            if rng.random() < 0.4:
+                nodes.append({"op": rng.choice(["negative", "square", "abs"]), "in": [i], "p": {}})
+                i = len(nodes) - 1
+            return i
+        a, b = tree(depth - 1), tree(depth - 1)
+        nodes.append({"op": rng.choice(["add", "multiply", "subtract", "maximum"]), "in": [a, b], "p": {}})
+        return len(nodes) - 1
+
+    root = tree(rng.choice([2, 2, 3]))
+    if rng.random() < 0.25:
+        nodes.append({"op": "sum", "in": [root], "p": {"axis": 0, "keepdims": False, "split_every": None}})
+        root = len(nodes) - 1
+    recipe = {"nodes": nodes, "outputs": [root]}
+    try:
+        with warnings.catch_warnings():
+            warnings.simplefilter("ignore")
+            vals = gen.np_eval(recipe)
+    except Exception:
+        return None, None
+    return recipe, vals
+
+
 def plan_budgets(recipe, wd):
     """Data-memory budgets at which the plan of this recipe is tight: the largest projected memory of the unoptimised
     plan, that of the default-optimised plan, and the midpoint (all with reserved_mem = 0)."""
@@ -244,10 +285,9 @@ def run_shard(spec, workdir):
     # may depend on allowed_mem - reserved_mem only
     for k in range(spec.get("shifted", 6)):
         wd = os.path.join(workdir, f"s{k}")
-        g = gen.Gen(rng.getrandbits(48), maxdim=spec["maxdim"], depth=spec["depth"], allow_zero=False,
-                    weights={"binary": 30, "unary": 12, "castchain": 6, "reduce": 8, "combo": 6, "linalg": 0, "multi": 0, "misc": 0, "create": 0, "index": 2, "manip": 4, "concat": 3, "cum": 0, "rechunk": 1})
-        g.maxblocks = 12
-        recipe, np_vals = g.generate()
+        recipe, np_vals = fusion_tree_recipe(rng)
+        if recipe is None:
+            continue
         budgets = plan_budgets(recipe, os.path.join(wd, "probe"))
         if not budgets:
             shutil.rmtree(wd, ignore_errors=True)
